@@ -92,7 +92,8 @@ def crash_site(exc):
     if site.startswith("traverse_ir."):
         m = re.search(r"Attempting to call '(\w+)'; missing (\{[^}]*\})", str(exc))
         if m:
-            site = "traverse_ir.invoke(%s missing %s)" % (m.group(1), m.group(2))
+            names = sorted(re.findall(r"\w+", m.group(2)))  # a set's repr: order depends on the hash seed
+            site = "traverse_ir.invoke(%s missing {%s})" % (m.group(1), ", ".join("'%s'" % n for n in names))
         elif specific:
             site = specific
     return type(exc).__name__, site
